@@ -24,6 +24,16 @@ def run_seq(ctx, args, name="seq", timeout=3000):
     rc, err = ctx.harness(["seq", "-seed", str(ctx.seed)] + args, tr, timeout=timeout)
     if rc != 0:
         ctx.breaks.append(Break("correspondence", "harness seq failed to run", err[-2000:]))
+        m = re.search(r"^panic: (.*)$", err, re.M)
+        if m:
+            # a panic outside a request's goroutine (the background shrinker, the journal's threads) ends the server process:
+            # the requests issued so far are the failing history
+            try:
+                done = open(tr).read().splitlines()
+            except OSError:
+                done = []
+            ctx.add_violation("server-process-died:" + m.group(1)[:60], "the server process died with 'panic: %s' in a background goroutine after %d requests" % (m.group(1)[:200], len([l for l in done if l and not l.startswith("#")])),
+                              {"how": "harness seq -seed %d %s" % (ctx.seed, " ".join(args)), "stderr": err[-3000:], "last_requests": [l[:300] for l in done[-25:]]})
         return None, tr
     return open(tr).read().splitlines(), tr
 
